@@ -4,6 +4,7 @@ import (
 	"bytes"
 	"compress/gzip"
 	"compress/zlib"
+	"context"
 	"fmt"
 	"io/ioutil"
 	"net/http"
@@ -12,6 +13,7 @@ import (
 	"strconv"
 	"strings"
 	"sync"
+	"time"
 
 	restful "github.com/emicklei/go-restful/v3"
 )
@@ -33,6 +35,7 @@ type FScript struct {
 	Pass  bool
 	Post  []Action
 	Fresh bool
+	MW    int // 0 a FilterFunction; 1 / 2 an http middleware (HttpMiddlewareHandlerToFilter) passing on the same / a derived request
 }
 
 func actionsSx(l []Action) Sx {
@@ -43,7 +46,7 @@ func actionsSx(l []Action) Sx {
 	return out
 }
 func (f FScript) Sx() Sx {
-	return L(A(f.ID), actionsSx(f.Pre), B(f.Pass), actionsSx(f.Post), B(f.Fresh))
+	return L(A(f.ID), actionsSx(f.Pre), B(f.Pass), actionsSx(f.Post), B(f.Fresh), f.MW)
 }
 func fscriptsSx(l []FScript) Sx {
 	out := Ls{}
@@ -63,7 +66,7 @@ func fscriptsFromSx(s Sx) []FScript {
 	out := []FScript{}
 	for _, f := range sxList(s) {
 		out = append(out, FScript{ID: sxStr(sxNth(f, 0)), Pre: actionsFromSx(sxNth(f, 1)), Pass: sxBool(sxNth(f, 2)),
-			Post: actionsFromSx(sxNth(f, 3)), Fresh: sxBool(sxNth(f, 4))})
+			Post: actionsFromSx(sxNth(f, 3)), Fresh: sxBool(sxNth(f, 4)), MW: sxInt(sxNth(f, 5))})
 	}
 	return out
 }
@@ -110,8 +113,23 @@ func genFScripts(r *Rng, prefix string, max int, panicPct int) []FScript {
 	n := r.Intn(max + 1)
 	out := []FScript{}
 	for i := 0; i < n; i++ {
-		out = append(out, FScript{ID: prefix + itoa(i), Pre: genActions(r, r.Intn(3), panicPct), Pass: r.Pct(85),
-			Post: genActions(r, r.Intn(3), panicPct), Fresh: r.Pct(12)})
+		f := FScript{ID: prefix + itoa(i), Pre: genActions(r, r.Intn(3), panicPct), Pass: r.Pct(85),
+			Post: genActions(r, r.Intn(3), panicPct), Fresh: r.Pct(12)}
+		if r.Pct(15) {
+			// an http middleware: it only has the ResponseWriter and the *http.Request
+			f.MW, f.Fresh = 1+r.Intn(2), false
+			keep := func(l []Action) []Action {
+				out := []Action{}
+				for _, a := range l {
+					if a.Kind <= 2 || a.Kind == 5 {
+						out = append(out, a)
+					}
+				}
+				return out
+			}
+			f.Pre, f.Post = keep(f.Pre), keep(f.Post)
+		}
+		out = append(out, f)
 	}
 	return out
 }
@@ -170,7 +188,15 @@ func genDisp(r *Rng) Sx {
 			}
 		}
 	}
-	cfg := L(t.Sx(), fscriptsSx(cf), sf, rf, hs, B(r.Pct(55)), B(r.Pct(60)), actionsSx(recoverScript), r.Intn(2), []int{0, 1, 2, 8}[r.Intn(4)])
+	condPanic := Ls{}
+	if r.Pct(20) {
+		for _, gr := range routes {
+			if r.Pct(40) {
+				condPanic = append(condPanic, gr.spec.ID)
+			}
+		}
+	}
+	cfg := L(t.Sx(), fscriptsSx(cf), sf, rf, hs, B(r.Pct(55)), B(r.Pct(60)), actionsSx(recoverScript), r.Intn(2), []int{0, 1, 2, 8}[r.Intn(4)], condPanic)
 	n := 1 + r.Intn(4)
 	if r.Pct(10) || forceConc {
 		n = 5 + r.Intn(12)
@@ -184,6 +210,9 @@ func genDisp(r *Rng) Sx {
 		}
 		if r.Pct(70) {
 			q.Set("Accept-Encoding", r.Pick([]string{"gzip", "deflate", "gzip, deflate", "deflate, gzip", "xgzipx", "GZIP", "gzip;q=0", "identity", "br"}))
+		}
+		if len(condPanic) > 0 && r.Pct(50) {
+			q.Set("X-Cond-Panic", "1")
 		}
 		preset := ""
 		if r.Pct(8) {
@@ -301,7 +330,42 @@ func runActions(l []Action, rq *restful.Request, rp *restful.Response, lg *reqLo
 	}
 }
 
+type ctxKey string
+
+func runHTTPActions(l []Action, w http.ResponseWriter) {
+	for _, a := range l {
+		switch a.Kind {
+		case 0:
+			w.Header().Add(a.A, a.B)
+		case 1:
+			n, _ := strconv.Atoi(a.A)
+			w.WriteHeader(n)
+		case 2:
+			w.Write([]byte(a.A))
+		case 5:
+			panic(a.A)
+		}
+	}
+}
+
 func mkFilter(f FScript, env *dispEnv) restful.FilterFunction {
+	if f.MW > 0 {
+		return restful.HttpMiddlewareHandlerToFilter(func(next http.Handler) http.Handler {
+			return http.HandlerFunc(func(w http.ResponseWriter, r *http.Request) {
+				lg := env.logOf(r)
+				lg.add("pre:" + f.ID)
+				runHTTPActions(f.Pre, w)
+				if f.Pass {
+					if f.MW == 2 {
+						r = r.WithContext(context.WithValue(r.Context(), ctxKey("mw"), f.ID))
+					}
+					next.ServeHTTP(w, r)
+				}
+				runHTTPActions(f.Post, w)
+				lg.add("post:" + f.ID)
+			})
+		})
+	}
 	return func(rq *restful.Request, rp *restful.Response, ch *restful.FilterChain) {
 		lg := env.logOf(rq.Request)
 		lg.add("pre:" + f.ID)
@@ -321,9 +385,7 @@ func mkFilter(f FScript, env *dispEnv) restful.FilterFunction {
 func buildDisp(cfg Sx, env *dispEnv) *restful.Container {
 	t := tableFromSx(sxNth(cfg, 0))
 	c := restful.NewContainer()
-	if t.Router == 1 {
-		c.Router(restful.RouterJSR311{})
-	}
+	setRouter(c, t.Router, len(t.Services)+len(sxList(sxNth(cfg, 1))))
 	for _, f := range fscriptsFromSx(sxNth(cfg, 1)) {
 		c.Filter(mkFilter(f, env))
 	}
@@ -338,6 +400,10 @@ func buildDisp(cfg Sx, env *dispEnv) *restful.Container {
 	hs := map[int][]Action{}
 	for _, x := range sxList(sxNth(cfg, 4)) {
 		hs[sxInt(sxNth(x, 0))] = actionsFromSx(sxNth(x, 1))
+	}
+	condPanic := map[int]bool{}
+	for _, x := range sxList(sxNth(cfg, 10)) {
+		condPanic[sxInt(x)] = true
 	}
 	c.EnableContentEncoding(sxBool(sxNth(cfg, 5)))
 	c.DoNotRecover(!sxBool(sxNth(cfg, 6)))
@@ -373,6 +439,15 @@ func buildDisp(cfg Sx, env *dispEnv) *restful.Container {
 			}
 			if len(rs.Enc) > 0 {
 				b.ContentEncodingEnabled(rs.Enc[0])
+			}
+			if condPanic[rs.ID] {
+				// an If-condition that panics on marked requests (it runs inside route selection, under the read lock)
+				b.If(func(hr *http.Request) bool {
+					if hr.Header.Get("X-Cond-Panic") == "1" {
+						panic("cond")
+					}
+					return true
+				})
 			}
 			for _, f := range rf[rs.ID] {
 				b.Filter(mkFilter(f, env))
@@ -507,6 +582,22 @@ func runDisp(raw Sx) (Sx, Sx) {
 	for i, h := range hist {
 		seq = append(seq, serveOne(c, env, i, h))
 	}
+	// after the history the container must still accept registrations: a read lock left held would block Add
+	usable := 1
+	{
+		var wg sync.WaitGroup
+		wg.Add(1)
+		go func() {
+			defer wg.Done()
+			defer func() { recover() }()
+			ws := new(restful.WebService)
+			ws.Path("/zz-usable-probe")
+			c.Add(ws)
+		}()
+		if b, d := waitOrDump(&wg, 2*time.Second, "sync.RWMutex", "(*Container).Add"); b {
+			usable, lastDump = 0, d
+		}
+	}
 	// (2) every request alone on a fresh container
 	fresh := Ls{}
 	for i, h := range hist {
@@ -542,7 +633,7 @@ func runDisp(raw Sx) (Sx, Sx) {
 	for _, h := range hist {
 		tabulateRouting(o, t, sxReq(sxNth(h, 1)).Path)
 	}
-	return L(o.Sx(), cfg, Ls(hist), mode), L(seq, fresh, conc, led)
+	return L(o.Sx(), cfg, Ls(hist), mode), L(seq, fresh, conc, led, usable)
 }
 
 func init() { domains["disp"] = domain{gen: genDisp, run: runDisp} }
